@@ -880,8 +880,17 @@ func (e *Exec) step(t []string) {
 		vshim.StartRecording()
 		err := db.Repair(e.of())
 		e.repairTouched = hashBefore != e.objFilesHash()
+		// the files Repair indexed, in the order it met them, are those that received the new object
+		// ids, in id order (also when their content came from the cache and no file was opened); the
+		// file it stopped at, if any, is the one it opened last without indexing it
 		var opened []string
 		seen := map[string]bool{}
+		for _, x := range strings.Fields(e.newIdsOrder(before)) {
+			if !seen[e.ustr(atoi(x))] {
+				seen[e.ustr(atoi(x))] = true
+				opened = append(opened, x)
+			}
+		}
 		for _, ev := range vshim.StopRecording() {
 			if ev.Kind == "open" && filepath.Base(ev.Path) != sod.SchemaFilename {
 				name := filepath.Base(ev.Path)
@@ -892,11 +901,6 @@ func (e *Exec) step(t []string) {
 					seen[name] = true
 					opened = append(opened, strconv.Itoa(n))
 				}
-			}
-		}
-		for _, x := range strings.Fields(e.newIdsOrder(before)) {
-			if !seen[e.ustr(atoi(x))] {
-				opened = append(opened, x)
 			}
 		}
 		if err != nil {
